@@ -2074,10 +2074,49 @@ class EntityInst(Instance):
 
         port_map: list[Tuple[str, str]] = []
 
-        for port_name in self._entity.ports():
-            port_map.append(
-                (port_name, self._scope.format_target(self._ports[port_name]))
-            )
+        def vector_kind(tp):
+            if issubclass(tp, Signed):
+                return "signed"
+            if issubclass(tp, Unsigned):
+                return "unsigned"
+            if issubclass(tp, BitVector):
+                return "std_logic_vector"
+            return None
+
+        for port_name, formal in self._entity.ports().items():
+            actual = self._ports[port_name]
+            local = self._scope.format_target(actual)
+
+            # determine the VHDL type of the object denoted by the actual,
+            # it differs from the type of the port when
+            # the actual is a view (.unsigned/.signed/.bitvector) of its root object
+            actual_type = actual._root.type
+
+            for ref in actual._ref_spec:
+                if isinstance(ref, Offset):
+                    if issubclass(actual_type, Array):
+                        actual_type = actual_type.elemtype()
+                    else:
+                        actual_type = Bit
+
+            formal_kind = vector_kind(formal.type)
+            actual_kind = vector_kind(actual_type)
+
+            if (
+                formal_kind is not None
+                and actual_kind is not None
+                and formal_kind != actual_kind
+            ):
+                # add type conversions to the association element
+                is_input = formal.direction() is Port.Direction.INPUT
+                is_output = formal.direction() is Port.Direction.OUTPUT
+
+                if not is_input:
+                    port_name = f"{actual_kind}({port_name})"
+                if not is_output:
+                    local = f"{formal_kind}({local})"
+
+            port_map.append((port_name, local))
 
         line_end = [","] * (len(port_map) - 1) + [""]
 
